@@ -12,6 +12,8 @@ import time
 VERIF = os.path.dirname(os.path.dirname(os.path.abspath(__file__)))
 REPO = os.environ.get("PARMCB_REPO", "/repo")
 BUILD = os.path.join(VERIF, "build")
+if os.path.realpath(REPO) != "/repo":   # mutation / seeded runs against a scratch copy get their own build area
+    BUILD = os.path.join(VERIF, "build", "alt_" + hashlib.sha1(os.path.realpath(REPO).encode()).hexdigest()[:10])
 NPROC = os.cpu_count() or 16
 GUARD = "PARMCB_VERIF"
 
@@ -56,7 +58,7 @@ def gen_config(tbb=True, mpi=True, invariants=True, logging=False):
 
 def _ccache_env():
     env = dict(os.environ)
-    env["CCACHE_DIR"] = os.path.join(BUILD, "ccache")
+    env["CCACHE_DIR"] = os.path.join(VERIF, "build", "ccache")
     env["CCACHE_BASEDIR"] = "/"
     env.setdefault("CCACHE_MAXSIZE", "4G")
     return env
@@ -135,13 +137,19 @@ def run_harness(binary, args, timeout=None, env=None):
 # ---------------------------------------------------------------- known findings
 
 def load_known():
-    p = os.path.join(VERIF, "known_findings.jsonl")
+    """known_findings.txt: 'known: property=.. site=<regex> class=<regex> [witness=..] :: text' and 'fixed: ...' lines."""
+    p = os.path.join(VERIF, "known_findings.txt")
     out = []
     if os.path.exists(p):
         for line in open(p):
             line = line.strip()
-            if line and not line.startswith("#"):
-                out.append(json.loads(line))
+            if not line.startswith("known:"):
+                continue
+            head, _, what = line[len("known:"):].partition("::")
+            k = {"status": "known", "what": what.strip()}
+            for tok in re.findall(r'(\w+)=("[^"]*"|\S+)', head):
+                k[tok[0]] = tok[1].strip('"')
+            out.append(k)
     return out
 
 
@@ -276,8 +284,9 @@ class Check:
         ev = {"property_id": self.prop, "tier": self.tier, "seed": seed(), "level": self.level, "coverage": cov,
               "assumptions": self.assumptions, "wall_s": round(wall, 2), "violations": len(unlisted),
               "repo": REPO, "notes": self.notes}
-        os.makedirs(os.path.join(VERIF, "evidence"), exist_ok=True)
-        json.dump(ev, open(os.path.join(VERIF, "evidence", self.prop + ".json"), "w"), indent=1)
+        evdir = os.path.join(VERIF, "evidence") if os.path.realpath(REPO) == "/repo" else os.path.join(BUILD, "evidence")
+        os.makedirs(evdir, exist_ok=True)
+        json.dump(ev, open(os.path.join(evdir, self.prop + ".json"), "w"), indent=1)
         log("%s tier=%s evaluations=%d nontrivial=%d states=%d transitions=%d exhaustive=%s wall=%.1fs violations=%d known=%d" % (
             self.prop, self.tier, self.evaluations, self.nontrivial, self.states, self.transitions, self.exhaustive, wall,
             len(unlisted), cov["known_findings_matched"]))
